@@ -105,6 +105,11 @@ def drive(s, steps, fs=None):
   return False
 
 
+class TaskAbort(BaseException):
+  pass
+
+
+EXC_KINDS = [RuntimeError, TaskAbort, SystemExit, KeyboardInterrupt, StopIteration]
 KINDS = ['zero', 'sleep', 'select_t', 'select_none', 'block', 'raise', 'busy']
 
 
@@ -132,7 +137,9 @@ def h_tasks(ctx, prog):
           # a long time slice: the clock moves on while this task runs (other tasks' deadlines may pass before the hub is consulted)
           clock.now = clock.now + ctx.int('busy_%d_%d' % (ti, si), 0, 8000); reqs[(ti, si)] = ('zero', clock.now, 0); got = yield 0
         elif k == 'block': reqs[(ti, si)] = ('block', clock.now, None); got = yield False
-        elif k == 'raise': reqs[(ti, si)] = ('raise', clock.now, None); raise RuntimeError("task failure")
+        elif k == 'raise':
+          # whatever a task raises - also exceptions outside the Exception hierarchy (a task calling sys.exit(), a library's BaseException subclass)
+          reqs[(ti, si)] = ('raise', clock.now, None); raise EXC_KINDS[int(ctx.int('exc_%d_%d' % (ti, si), 0, len(EXC_KINDS) - 1))]("task failure")
       active[0] += 1
       trace.append((ti, len(kinds), clock.now, got, active[0]))
       active[0] -= 1
@@ -141,9 +148,15 @@ def h_tasks(ctx, prog):
     tasks = []
     for ti, kinds in enumerate(prog):
       t = R.Task(target=body(ti, kinds)); t.start(s); tasks.append(t)
-    done = drive(s, 80, fs)
+    escaped = None
+    try:
+      done = drive(s, 80, fs)
+    except BaseException as ex:
+      if type(ex).__module__.startswith('symx'): raise
+      escaped = ex; done = False
   finally:
     sys.stdout = out; sys.stderr = err
+  ctx.check('a failing task is descheduled - nothing it raises escapes the scheduler', escaped is None)
   ctx.check('driver reached quiescence', done)
   for ti, kinds in enumerate(prog):
     mine = [x for x in trace if x[0] == ti]
